@@ -119,14 +119,17 @@ class Bogus:                 # a child that can be attached to an unchecked tree
 cases = {'validation failure (incomplete checked score)': lambda: XMLScorePartwise(),
          'serialisation failure (unchecked tree, child without et_xml_element)': lambda: (lambda s: (s.add_child(Bogus()), s)[1])(XMLScorePartwise(xsd_check=False))}
 for what, mk in cases.items():
-    p = os.path.join(d, 'x.xml'); open(p, 'w', encoding='utf-8').write('PREVIOUS')
+  for prior in ('PREVIOUS', None):          # every prior state of the destination: existing content, or absent
+    p = os.path.join(d, 'x.xml')
+    if os.path.exists(p): os.remove(p)
+    if prior is not None: open(p, 'w', encoding='utf-8').write(prior)
     s = mk()
     try:
         s.write(p); print(what, ': write did not raise')
     except Exception as e:
-        after = open(p, encoding='utf-8').read()
-        print(what, ': write raised', type(e).__name__, '; destination now:', repr(after[:60]))
-        if after != 'PREVIOUS': bad = 1
+        after = open(p, encoding='utf-8').read() if os.path.exists(p) else None
+        print(what, '(prior state %r)' % (prior,), ': write raised', type(e).__name__, '; destination now:', repr(after if after is None else after[:60]))
+        if after != prior: bad = 1
 s = XMLScorePartwise(xsd_check=False); s.add_child(XMLMovementTitle('Gr\\u00fc\\u00dfe \\u266b'))
 p = os.path.join(d, 'y.xml'); s.write(p)
 data = open(p, 'rb').read()
